@@ -82,6 +82,13 @@ def replay_layout(chk, st, data):
                     chk.violation('C02:layout:%s:%s:%s:changed-by-plot' % (name, dt, par),
                                   '%s: after plot(sides=%r) the object reports sides=%s, %d values, %d frequencies (expected %s, %d)'
                                   % (name, other, obj.sides, len(psd3) if okq else -1, len(obj.frequencies()), sides, ln), case)
+            # ... nor does any other way of looking at it (normalised plot, plot in dB off / on)
+            for kwp in ({'norm': True}, {'norm': True, 'sides': other}):
+                okp, _r = call_guard(lambda: (obj.plot(**kwp), _PLOT[0].close('all')))
+                okq, psd4 = call_guard(lambda: np.array(obj.psd))
+                if okp and (not okq or psd4.shape != psd.shape or np.max(np.abs(psd4 - psd)) > 1e-12 * np.max(np.abs(psd))):
+                    chk.violation('C02:layout:%s:%s:%s:changed-by-plot' % (name, dt, par),
+                                  '%s: after plot(%s) the object no longer reports the values it reported before' % (name, kwp), case)
     chk.replayed += 1
     chk.count('layout', 'replayed')
     if arg == 1:
@@ -107,9 +114,13 @@ def tone_events(chk):
     batch = obs.Batch('ObsC02')
     quick = chk.tier == 'quick'
     confs = [(48, 64), (48, 48), (47, 63), (64, 128)] if quick else [(48, 64), (48, 48), (47, 63), (64, 128), (33, 65), (64, 65), (50, 100)]
-    for N, nfft in confs:
+    # long records / long transforms (past 2048 and 4096 = the library's default NFFT; past 8192 in the thorough tier): two tones each
+    long_confs = [(4200, 4201)] if quick else [(2100, 2100), (4200, 4201), (8300, 8400)]
+    for N, nfft in confs + long_confs:
         n = np.arange(N)
         ks = sorted(set([3, nfft // 4, nfft // 2 - 3, -5, -(nfft // 3)] + ([int(rng.randint(2, nfft // 2 - 2))] if not quick else [])))
+        if (N, nfft) in long_confs:
+            ks = [nfft // 4 + 1, -(nfft // 3)]
         for k in ks:
             for dt in ('complex', 'real'):
                 if dt == 'real' and (k < 4 or k > nfft // 2 - 4):
@@ -117,10 +128,14 @@ def tone_events(chk):
                 sampling = float(rng.choice(SAMPLINGS))
                 noise = 1e-3 * (rng.randn(N) + (1j * rng.randn(N) if dt == 'complex' else 0))
                 x = (np.exp(2j * np.pi * k * n / nfft) if dt == 'complex' else np.cos(2 * np.pi * k * n / nfft + 0.3)) + noise
-                for name in zoo.CLASSES:
+                # (order selection must not lose a complex exponential: its first reflection coefficient removes 60 dB.  A real
+                # sinusoid near a quarter of the sampling rate gains nothing at order 1 and the stop-at-first-increase rule
+                # legitimately returns the order-0 model: not asserted)
+                for name in zoo.CLASSES + (['pburg:AIC', 'pburg:MDL'] if dt == 'complex' else []):
                     over = {'order': 4, 'IP': 6, 'NSIG': 1 if dt == 'complex' else 2, 'P': 2, 'Q': 2, 'armalag': 10,
                             # (the correlogram needs NFFT >= 2 lag + 1 to hold its lag sequence: C05's admissibility)
-                            'corrlag': min(N - 1, (nfft - 1) // 2),
+                            # (long records: a few lags, as one would use them)
+                            'corrlag': min(N - 1, (nfft - 1) // 2) if N < 1000 else 25,
                             'window': 'rectangular'}
                     ev = {'ev': 'tone', 'cls': name, 'dt': dt, 'N': N, 'nfft': nfft, 'k': int(k), 'nw10': 25}
                     ok, obj = call_guard(zoo.build, name, x.copy(), nfft, sampling, False, **over)
@@ -200,6 +215,8 @@ def tone_events(chk):
 def run(chk):
     core.run_jobs(chk, [layout_job(chk)])
     tone_events(chk)
+    from .. import quiet
+    quiet.run_for(chk, 'C02')      # Quiet.tla: asking for diagnostics is not an argument
 
 
 def replay_case(chk, sig, case):
